@@ -38,7 +38,10 @@ class _FaultyMixin:
             self.fired = True
             if getattr(self, "fail_with", None) is not None:
                 raise self.fail_with(f"injected at I/O call {k} ({what})")
-            raise InjectedIOError(f"injected failure at I/O call {k} ({what})")
+            # (the error numbers real file systems produce: a stale NFS handle, "try again", an interrupted call, a plain I/O error)
+            import errno as _errno
+            code = (_errno.EIO, _errno.ESTALE, _errno.EAGAIN, _errno.EINTR, _errno.ETIMEDOUT)[k % 5]
+            raise InjectedIOError(code, f"injected failure at I/O call {k} ({what})")
 
     def read(self, *a):
         self._tick("read")
